@@ -35,6 +35,9 @@ ITEMS = {
     "nonsync1": [("line", b"t5 APPEND INBOX"), ("lit", b"hi\r\nyo", False), ("line", b"")],
     "looks-like-cmd": [("line", b"t6 APPEND x"), ("lit", b"t9 LOGOUT\r\n\r\n", True), ("line", b"")],
     "ends-in-brace": [("line", b"t7 SEARCH TEXT"), ("lit", b"abc{5}", False), ("line", b" SEEN")],
+    # the command ends directly after a literal whose own last octets look like a literal declaration
+    "brace-at-eol": [("line", b"td LOGIN joe"), ("lit", b"pw{9}", True), ("line", b"")],
+    "brace-plus-at-eol": [("line", b"te APPEND INBOX"), ("lit", b"body {4+}", False), ("line", b"")],
     "big-sync": [("line", b"t8 APPEND INBOX"), ("lit", b"x" * 100, True), ("line", b"")],
     "big-nonsync": [("line", b"t9 APPEND INBOX"), ("lit", b"y" * 100, False), ("line", b"")],
     "big-nonsync-crlf": [("line", b"tc APPEND INBOX"), ("lit", b"q" * 50 + b"\r\nt0 LOGOUT\r\n" + b"q" * 40, False), ("line", b"")],
@@ -298,8 +301,8 @@ def run(tier, seed, jobs) -> Result:
     n += k
     res.coverage = {
         "evaluations": n, "distinct_nontrivial": len(seqs) + len(outcomes),
-        "rule": "every sequence of <=%d items from the 13-item menu x every segmentation of one stretch with <=2 cut points (%s); distinct = item sequences + distinct "
-                "(sequence, '+' count, BAD count, closed) outcomes" % (2 if tier == "quick" else 3, "all positions" if full else "second cut next to CR/LF/braces"),
+        "rule": "every sequence of <=%d items from the %d-item menu x every segmentation of one stretch with <=2 cut points (%s); distinct = item sequences + distinct "
+                "(sequence, '+' count, BAD count, closed) outcomes" % (2 if tier == "quick" else 3, len(ITEMS), "all positions" if full else "second cut next to CR/LF/braces"),
         "sequences": len(seqs), "distinct_outcomes": len(outcomes), "exhaustive": True,
         "samples": [list(seqs[3]), list(seqs[40]), list(seqs[-1])],
     }
